@@ -412,7 +412,20 @@ func (c *Ctx) RangeGuard(rule string, id string, wantGuard bool) []report.Obliga
 					}
 				}
 				key := id + " :: m[k] = v"
+				// an overriding merge writes on EVERY iteration: the update dominates every way back to the loop head
+				skipped := ""
+				if !wantGuard {
+					for t := range l.region {
+						for _, s := range t.Succs {
+							if s == l.head && t != b && !b.Dominates(t) {
+								skipped = c.P.InstrPos(t.Instrs[len(t.Instrs)-1])
+							}
+						}
+					}
+				}
 				switch {
+				case skipped != "":
+					out = append(out, bad(rule, key, c.P.InstrPos(in), "some iterations go on to the next entry without the write (the jump at "+skipped+"): an entry of the argument that meets the condition does not override the accumulated value - e.g. a key listed without a value keeps the value of an env file"))
 				case wantGuard && guarded:
 					out = append(out, ok2(rule, key, c.P.InstrPos(in), "written only when the key is absent / the current value is nil: existing entries win"))
 				case wantGuard:
